@@ -18,7 +18,7 @@ ASSUMPTIONS = ['counts have at most 4 decimal places (str() of smaller floats us
                'written string over all names and synonyms', 'mass reference: frozen NIST table']
 
 KEYS = ['C', 'Ce', 'e', 'H', 'He', 'N', 'n', 'Na', 'p', 'P', 'D', 'T', '13C', '2H', '15N', 'S', 'Se', 'Cl', '2D', '3T', '3H']
-COUNTS = [-200, -2, -1, 0, 1, 2, 12, 500, 0.5, -1.25, 0.0001]
+COUNTS = [-200, -12, -2, -1, 0, 1, 2, 12, 500, 0.5, -1.25, 0.0001]   # -12: 'H2e-12' must not read as an exponent
 COUNTS3 = [-2, 0, 1, 12, 0.5]
 SEPS = ['', ' ', '|']
 GNAMES = ['Hex', 'HexNAc', 'HexN', 'HexS', 'HexNAc(S)', 'a-Hex', 'd-Hex', 'Neu', 'Neu5Ac', 'Pen', 'Acetyl', 'Me',
